@@ -26,4 +26,6 @@ def run(P, R, L):
     K.grd10_closed_intervals(P, R, L)
     R.clause("SRC-1", "the client iterator merges every source: mutable memtable, immutable memtable (when present), one iterator per level-0 file and per non-empty deeper level")
     K.src1_iterator_sources(P, R, L)
+    R.clause("GRD-13", "the per-level file search compares internal keys (a snapshot read of one key of a batch must not stop at the wrong file)")
+    K.grd13_find_file_compares_internal_keys(P, R, L)
     R.not_decided += ["sequence arithmetic (prev+1 .. prev+len)", "rotation in the middle of a batch"]
